@@ -338,6 +338,25 @@ func (p *parser) stype() (*SType, error) {
 		}
 		name += op + t2.s
 	}
+	if p.isOp("[") {
+		// instantiated generic type: Name[Arg, []Arg, ...]
+		p.next()
+		var args []string
+		for !p.isOp("]") {
+			a, err := p.stype()
+			if err != nil {
+				return nil, err
+			}
+			args = append(args, a.String())
+			if !p.accept(",") {
+				break
+			}
+		}
+		if err := p.expect("]"); err != nil {
+			return nil, err
+		}
+		name += "[" + strings.Join(args, ",") + "]"
+	}
 	return &SType{Kind: "name", Name: name}, nil
 }
 
